@@ -124,6 +124,16 @@ macro_rules! dispatch {
         match $pname {
             "ws" => $obs(text::whitespace().to_slice(), $inp),
             "iws" => $obs(text::inline_whitespace().to_slice(), $inp),
+            // the returned `Repeated` counts CHARACTERS: bounds and `count()` on (inline) whitespace
+            "ws_b" => $obs(
+                text::whitespace().at_least(r as usize).at_most($params.get(1).copied().unwrap_or(9) as usize).to_slice(),
+                $inp
+            ),
+            "iws_b" => $obs(
+                text::inline_whitespace().at_least(r as usize).at_most($params.get(1).copied().unwrap_or(9) as usize).to_slice(),
+                $inp
+            ),
+            "ws_x" => $obs(text::whitespace().exactly(r as usize).to_slice(), $inp),
             "digits" => $obs(text::digits(r).to_slice(), $inp),
             "int" => $obs(text::int(r), $inp),
             "aident" => $obs(text::ascii::ident(), $inp),
